@@ -4,6 +4,49 @@ package server
 
 // Contracts for the verification machinery in /verif (comment-only; never compiled without -tags verif).
 
+// Frames (modifies clauses) are tracked inside this universe of heap maps; everything outside it
+// (byte buffers, boxed scalars, other packages' structs) is forgotten at every modular call.
+//@ universe F_server_Lock_, F_server_LockManager, F_server_LockDB_, F_server_LockQueue_, F_server_LongWaitLock, F_server_MillisecondWaitLock, F_server_FastKeyValue_, F_server_PriorityMutex_, F_server_Aof, F_server_Subscribe, F_server_Publish, F_server_LockData_, F_protocol_LockDBState_, F_protocol_LockCommand_, E_Pserver_, E_LJPserver_, E_int32, E_server_, MH_, MV_
+
+// ---- interface contracts (assumed at call sites; every implementation in the repository is checked
+// ---- against the frame by a generated "refine" obligation) ----
+//@ func ServerProtocol.ProcessLockResultCommand
+//@   preserves F_server_Lock_, F_server_LockManager, F_server_LockDB_, F_server_LockQueue_, F_server_LongWaitLock, F_server_MillisecondWaitLock, F_server_FastKeyValue_, F_server_PriorityMutex_, F_server_Aof, F_server_Subscribe, F_server_Publish, F_server_LockData_, F_protocol_LockDBState_, F_protocol_LockCommand_, E_Pserver_, E_LJPserver_, E_int32, E_server_, MH_, MV_
+//@ func ServerProtocol.ProcessLockResultCommandLocked
+//@   preserves F_server_Lock_, F_server_LockManager, F_server_LockDB_, F_server_LockQueue_, F_server_LongWaitLock, F_server_MillisecondWaitLock, F_server_FastKeyValue_, F_server_PriorityMutex_, F_server_Aof, F_server_Subscribe, F_server_Publish, F_server_LockData_, F_protocol_LockDBState_, F_protocol_LockCommand_, E_Pserver_, E_LJPserver_, E_int32, E_server_, MH_, MV_
+//@ func ServerProtocol.FreeLockCommand
+//@   preserves F_server_Lock_, F_server_LockManager, F_server_LockDB_, F_server_LockQueue_, F_server_LongWaitLock, F_server_MillisecondWaitLock, F_server_FastKeyValue_, F_server_PriorityMutex_, F_server_Aof, F_server_Subscribe, F_server_Publish, F_server_LockData_, F_protocol_LockDBState_, F_protocol_LockCommand_, E_Pserver_, E_LJPserver_, E_int32, E_server_, MH_, MV_
+//@   modifies protocol.LockCommand.Data
+//@ func ServerProtocol.FreeLockCommandLocked
+//@   preserves F_server_Lock_, F_server_LockManager, F_server_LockDB_, F_server_LockQueue_, F_server_LongWaitLock, F_server_MillisecondWaitLock, F_server_FastKeyValue_, F_server_PriorityMutex_, F_server_Aof, F_server_Subscribe, F_server_Publish, F_server_LockData_, F_protocol_LockDBState_, F_protocol_LockCommand_, E_Pserver_, E_LJPserver_, E_int32, E_server_, MH_, MV_
+//@   modifies protocol.LockCommand.Data
+//@ func ServerProtocol.GetLockCommand
+//@   preserves F_server_Lock_, F_server_LockManager, F_server_LockDB_, F_server_LockQueue_, F_server_LongWaitLock, F_server_MillisecondWaitLock, F_server_FastKeyValue_, F_server_PriorityMutex_, F_server_Aof, F_server_Subscribe, F_server_Publish, F_server_LockData_, F_protocol_LockDBState_, E_Pserver_, E_LJPserver_, E_int32, E_server_, MH_, MV_
+//@ func ServerProtocol.GetLockCommandLocked
+//@   preserves F_server_Lock_, F_server_LockManager, F_server_LockDB_, F_server_LockQueue_, F_server_LongWaitLock, F_server_MillisecondWaitLock, F_server_FastKeyValue_, F_server_PriorityMutex_, F_server_Aof, F_server_Subscribe, F_server_Publish, F_server_LockData_, F_protocol_LockDBState_, E_Pserver_, E_LJPserver_, E_int32, E_server_, MH_, MV_
+//@ func ServerProtocol.GetProxy
+//@   preserves F_server_Lock_, F_server_LockManager, F_server_LockDB_, F_server_LockQueue_, F_server_LongWaitLock, F_server_MillisecondWaitLock, F_server_FastKeyValue_, F_server_PriorityMutex_, F_server_Aof, F_server_Subscribe, F_server_Publish, F_server_LockData_, F_protocol_LockDBState_, F_protocol_LockCommand_, E_Pserver_, E_LJPserver_, E_int32, E_server_, MH_, MV_
+//@ func ServerProtocol.AddProxy
+//@   preserves F_server_Lock_, F_server_LockManager, F_server_LockDB_, F_server_LockQueue_, F_server_LongWaitLock, F_server_MillisecondWaitLock, F_server_FastKeyValue_, F_server_PriorityMutex_, F_server_Aof, F_server_Subscribe, F_server_Publish, F_server_LockData_, F_protocol_LockDBState_, F_protocol_LockCommand_, E_Pserver_, E_LJPserver_, E_int32, E_server_, MH_, MV_
+//@ func ServerProtocol.GetStream
+//@   preserves *
+//@ func ServerProtocol.RemoteAddr
+//@   preserves *
+
+// the wait queue's ring representation (two implementations)
+//@ func ILockManagerRingQueue.Push
+//@   modifies F_server_LockManagerRingQueue_queue, F_server_LockManagerRingQueue_index, F_server_LockManagerPriorityRingQueue_priorityNodes, F_server_LockManagerPriorityRingQueue_index, F_server_LockManagerPriorityRingQueueNode_ringQueue, F_server_LockManagerPriorityRingQueueNode_priority, E_Pserver_Lock, E_Pserver_LockManagerPriorityRingQueueNode
+//@ func ILockManagerRingQueue.Pop
+//@   modifies F_server_LockManagerRingQueue_queue, F_server_LockManagerRingQueue_index, F_server_LockManagerPriorityRingQueue_priorityNodes, F_server_LockManagerPriorityRingQueue_index, F_server_LockManagerPriorityRingQueueNode_ringQueue, F_server_LockManagerPriorityRingQueueNode_priority, E_Pserver_Lock, E_Pserver_LockManagerPriorityRingQueueNode
+//@ func ILockManagerRingQueue.Head
+//@   modifies nothing
+//@ func ILockManagerRingQueue.MaxPriority
+//@   modifies nothing
+//@ func ILockManagerRingQueue.Len
+//@   modifies nothing
+//@ func ILockManagerRingQueue.IterNodes
+//@   modifies E_LJPserver_Lock
+
 //@ spec func admissible(m, l) = m.locked == 0 || (m.locked <= l.command.Count && m.locked <= m.currentLock.command.Count)
 
 // input class of the known finding C01/doLock: Count 0xffff on both sides means "unlimited" in the code
@@ -34,3 +77,375 @@ package server
 //@   ensures C12.order.time: implies(aofIdx(a) == aofIdx(b) && aofOff(a) == aofOff(b) && aofTime(a) > aofTime(b), result == 1)
 //@   ensures C12.order.time-older: implies(aofIdx(a) == aofIdx(b) && aofOff(a) == aofOff(b) && aofTime(a) < aofTime(b), result == -1)
 //@   modifies nothing
+
+// =====================================================================================================
+// Lock engine (server/lock.go, server/db.go): shared vocabulary
+// =====================================================================================================
+
+// every field of a Lock object that the engine's reasoning depends on is unchanged
+//@ spec func lockSame(l) = l.locked == old(l.locked) && l.refCount == old(l.refCount) && l.manager == old(l.manager) && l.command == old(l.command) && l.protocol == old(l.protocol) && l.ackCount == old(l.ackCount) && l.timeouted == old(l.timeouted) && l.expried == old(l.expried) && l.isAof == old(l.isAof) && l.aofTime == old(l.aofTime) && l.expriedTime == old(l.expriedTime) && l.startTime == old(l.startTime) && l.timeoutTime == old(l.timeoutTime) && l.longWaitIndex == old(l.longWaitIndex) && l.data == old(l.data)
+// holder-queue maintenance only drops references to entries that are no longer held
+//@ spec func heldLocksSame() = forallref(l, Lock, implies(old(l.locked) > 0, lockSame(l)))
+// wait-queue maintenance only drops references to entries that were already answered
+//@ spec func liveWaitersSame() = forallref(l, Lock, implies(!old(l.timeouted) && old(l.ackCount) == 0xff, lockSame(l)))
+// as lockSame, except that the reference count may have dropped (a queue released its reference)
+//@ spec func lockSameModRef(l) = l.locked == old(l.locked) && l.refCount <= old(l.refCount) && l.manager == old(l.manager) && l.command == old(l.command) && l.protocol == old(l.protocol) && l.ackCount == old(l.ackCount) && l.timeouted == old(l.timeouted) && l.expried == old(l.expried) && l.isAof == old(l.isAof) && l.aofTime == old(l.aofTime) && l.expriedTime == old(l.expriedTime) && l.startTime == old(l.startTime) && l.timeoutTime == old(l.timeoutTime) && l.longWaitIndex == old(l.longWaitIndex) && l.data == old(l.data)
+// reference-count discipline (C17 'refs' accounting, not proved): a Lock that is held, or queued and not yet answered,
+// is referenced by more than the queue entry being dropped, hence never returned to the free list by queue maintenance
+//@ spec func refDiscipline() = forallref(l, Lock, implies(old(l.locked) > 0 || (!old(l.timeouted) && old(l.ackCount) == 0xff), lockSameModRef(l)))
+//@ spec func otherLocksSame(x) = forallref(l, Lock, implies(l != x, lockSame(l)))
+//@ spec func otherManagersSame(m) = forallref(o, LockManager, implies(o != m, o.locked == old(o.locked) && o.currentLock == old(o.currentLock) && o.waited == old(o.waited) && o.lockKey == old(o.lockKey) && o.refCount == old(o.refCount) && o.currentData == old(o.currentData)))
+
+// the server clock (seconds since the epoch) is far from the int64 range: assumed at the start of every section
+//@ spec func clockSane(db) = db != nil && db.currentTime >= 0 && db.currentTime < 0x10000000000
+
+// seconds added to "now" by an expiry / timeout value under its unit flags (README: 0x0040 minute, 0x0400 millisecond)
+//@ spec func unitSeconds(v, flag) = ite(flag&0x0400 != 0, v / 1000, ite(flag&0x0040 != 0, v*60, v))
+//@ spec func expriedDeadline(now, cmd) = ite(cmd.ExpriedFlag&0x4000 != 0, 0x7fffffffffffffff, now + unitSeconds(cmd.Expried, cmd.ExpriedFlag) + 1)
+//@ spec func timeoutDeadline(now, cmd) = now + unitSeconds(cmd.Timeout, cmd.TimeoutFlag) + 1
+
+// ---- queue internals: assumed here, the subject of C20 ----
+//@ func (*LockManagerLockQueue).Push
+//@   trusted queue internals (holder queue): element-level behaviour is the subject of C20; here only the object frame is assumed
+//@   assumes refDiscipline() && lockSame(lock)
+//@   modifies LockManagerLockQueue.fastIndex, LockManagerLockQueue.fastQueue, LockManagerLockQueue.scaleQueue, LockManager.refCount, LockQueue.*, Lock.aofTime, Lock.command, Lock.data, Lock.isAof, Lock.manager, Lock.protocol, Lock.refCount, E_LJPserver_Lock, E_Pserver_Lock, E_int32, MH_mapLL16JbyteJPserver_Lock, MV_mapLL16JbyteJPserver_Lock
+
+//@ func (*LockManagerLockQueue).Pop
+//@   trusted queue internals (holder queue), subject of C20
+//@   ensures forallref(l, Lock, lockSame(l))
+//@   modifies LockManagerLockQueue.fastIndex, LockManagerLockQueue.fastQueue, LockQueue.*, E_LJPserver_Lock, E_Pserver_Lock, E_int32
+
+//@ func (*LockManagerLockQueue).Head
+//@   trusted queue internals (holder queue), subject of C20
+//@   modifies nothing
+
+//@ func (*LockManagerLockQueue).GetLock
+//@   trusted queue internals (holder queue), subject of C20 / C02 completeness
+//@   ensures implies(result != nil, result.locked > 0 && result.command != nil && result.command.LockId == command.LockId)
+//@   modifies nothing
+
+//@ func (*LockManagerLockQueue).RemoveLock
+//@   trusted queue internals (holder queue), subject of C20
+//@   modifies MH_mapLL16JbyteJPserver_Lock
+
+//@ func (*LockManagerLockQueue).Resize
+//@   trusted queue internals (holder queue), subject of C20
+//@   modifies LockManagerLockQueue.fastIndex, LockManagerLockQueue.fastQueue, LockQueue.*, E_LJPserver_Lock, E_Pserver_Lock, E_int32
+
+//@ func (*LockManagerWaitQueue).Push
+//@   trusted queue internals (wait queue), subject of C20 / C04 order
+//@   assumes refDiscipline() && lockSame(lock)
+//@   modifies LockManagerWaitQueue.*, LockManagerRingQueue.*, LockManagerPriorityRingQueue.*, LockManagerPriorityRingQueueNode.*, LockManager.refCount, LockQueue.*, Lock.aofTime, Lock.command, Lock.data, Lock.isAof, Lock.manager, Lock.protocol, Lock.refCount, E_LJPserver_Lock, E_Pserver_Lock, E_Pserver_LockManagerPriorityRingQueueNode, E_int32
+
+//@ func (*LockManagerWaitQueue).Pop
+//@   trusted queue internals (wait queue), subject of C20
+//@   ensures forallref(l, Lock, lockSame(l))
+//@   modifies LockManagerWaitQueue.*, LockManagerRingQueue.*, LockManagerPriorityRingQueue.*, LockManagerPriorityRingQueueNode.*, E_LJPserver_Lock, E_Pserver_Lock, E_Pserver_LockManagerPriorityRingQueueNode, E_int32
+
+//@ func (*LockManagerWaitQueue).Head
+//@   trusted queue internals (wait queue), subject of C20
+//@   modifies nothing
+
+//@ func (*LockManagerWaitQueue).MaxPriority
+//@   trusted queue internals (wait queue), subject of C20
+//@   modifies nothing
+
+//@ func (*LockManagerWaitQueue).IterNodes
+//@   trusted queue internals (wait queue), subject of C20
+//@   modifies E_LJPserver_Lock
+
+//@ func (*LockManagerWaitQueue).RePushPriorityRingQueue
+//@   trusted queue internals (wait queue), subject of C20 / C04 order
+//@   ensures forallref(l, Lock, lockSame(l))
+//@   modifies LockManagerWaitQueue.*, LockManagerRingQueue.*, LockManagerPriorityRingQueue.*, LockManagerPriorityRingQueueNode.*, E_LJPserver_Lock, E_Pserver_Lock, E_Pserver_LockManagerPriorityRingQueueNode, E_int32
+
+// free list of Lock objects
+//@ func (*LockQueue).Push
+//@   trusted queue internals, subject of C20
+//@   ensures forallref(l, Lock, lockSame(l))
+//@   modifies LockQueue.*, E_LJPserver_Lock, E_Pserver_Lock, E_int32
+//@ func (*LockQueue).PopRight
+//@   trusted queue internals, subject of C20
+//@   ensures forallref(l, Lock, lockSame(l))
+//@   modifies LockQueue.*, E_LJPserver_Lock, E_Pserver_Lock, E_int32
+
+// ---- LockManager: holders ----
+//@ func (*LockManager).FreeLock
+//@   requires self != nil && lock != nil && self.freeLocks != nil
+//@   ensures otherLocksSame(lock) && lock.locked == old(lock.locked) && lock.refCount == old(lock.refCount)
+//@   ensures implies(old(lock.manager) != nil, lock.manager == nil && lock.command == nil && self.refCount == u32(old(self.refCount) - 1))
+//@   ensures implies(old(lock.manager) == nil, lockSame(lock) && self.refCount == old(self.refCount))
+//@   modifies Lock.manager@lock, Lock.protocol@lock, Lock.command@lock, Lock.data@lock, Lock.isAof@lock, Lock.aofTime@lock, LockManager.refCount@self, LockQueue.*, E_LJPserver_Lock, E_Pserver_Lock, E_int32
+
+//@ func (*LockManager).AddLock
+//@   requires self != nil && lock != nil && lock.command != nil && self.lockDb != nil
+//@   ensures C01.grant.depth,C02.grant.depth,C17.grant.depth: lock.locked == 1 && result == lock
+//@   ensures lock.refCount == u8(old(lock.refCount) + 1)
+//@   ensures C01.grant.oldest: self.currentLock == ite(old(self.currentLock) == nil, lock, old(self.currentLock))
+//@   ensures C06.grant.deadline: implies(lock.command.TimeoutFlag&0x0100 == 0, lock.startTime == self.lockDb.currentTime && lock.expriedTime == i64(expriedDeadline(self.lockDb.currentTime, lock.command)))
+//@   ensures C06.grant.unrenew: implies(lock.command.TimeoutFlag&0x0100 != 0, lock.startTime == old(lock.startTime) && lock.expriedTime == old(lock.expriedTime))
+//@   ensures C07.grant.aoftime: implies(old(self.currentLock) == nil && lock.command.ExpriedFlag&0x1300 == 0x0100, lock.aofTime == 0) && implies(old(self.currentLock) == nil && lock.command.ExpriedFlag&0x1300 == 0x0200, lock.aofTime == 0xff) && implies(old(self.currentLock) != nil, lock.aofTime == old(self.currentLock.aofTime))
+//@   ensures C11.grant.ack: lock.ackCount == ite(lock.command.Flag&0x04 == 0 && lock.command.TimeoutFlag&0x1000 != 0, 0, old(lock.ackCount))
+//@   ensures lock.manager == old(lock.manager) && lock.command == old(lock.command) && lock.protocol == old(lock.protocol) && lock.timeouted == old(lock.timeouted) && lock.expried == old(lock.expried) && lock.longWaitIndex == old(lock.longWaitIndex) && lock.timeoutTime == old(lock.timeoutTime) && lock.data == old(lock.data)
+//@   assumes implies(old(lock.locked) == 0, refDiscipline())
+//@   modifies Lock.locked@lock, Lock.startTime@lock, Lock.expriedTime@lock, Lock.expriedCheckedCount@lock, Lock.ackCount@lock, Lock.isAof, Lock.aofTime, Lock.refCount, LockManager.currentLock@self, LockManager.locks@self, LockManager.refCount, LockManagerLockQueue.*, LockQueue.*, Lock.command, Lock.data, Lock.manager, Lock.protocol, E_LJPserver_Lock, E_Pserver_Lock, E_int32, MH_mapLL16JbyteJPserver_Lock, MV_mapLL16JbyteJPserver_Lock
+
+//@ func (*LockManager).RemoveLock
+//@   requires self != nil && lock != nil && self.freeLocks != nil
+//@   ensures C02.release.depth,C01.release.depth: lock.locked == 0 && lock.ackCount == 0xff && result == lock
+//@   ensures C01.release.oldest: implies(old(self.currentLock) != lock, self.currentLock == old(self.currentLock))
+//@   ensures C01.release.next: implies(old(self.currentLock) == lock && self.currentLock != nil, self.currentLock.locked > 0)
+//@   ensures forallref(l, Lock, implies(l != lock, l.locked == old(l.locked) && l.ackCount == old(l.ackCount)))
+//@   assumes forallref(l, Lock, implies(l != lock && old(l.locked) > 0, lockSameModRef(l))) && self.currentLock != lock
+//@   assumes lock.command == old(lock.command) && lock.protocol == old(lock.protocol) && lock.manager == old(lock.manager) && lock.isAof == old(lock.isAof) && lock.refCount == ite(old(self.currentLock) == lock, u8(old(lock.refCount) - 1), old(lock.refCount))
+//@   modifies Lock.locked@lock, Lock.ackCount@lock, Lock.refCount, Lock.manager, Lock.command, Lock.protocol, Lock.data, Lock.isAof, Lock.aofTime, LockManager.currentLock@self, LockManager.refCount, LockManagerLockQueue.*, LockQueue.*, E_LJPserver_Lock, E_Pserver_Lock, E_int32, MH_mapLL16JbyteJPserver_Lock
+
+//@ func (*LockManager).GetLockedLock
+//@   requires self != nil && command != nil && self.currentLock != nil && self.currentLock.command != nil
+//@   ensures C02.owner.sound: implies(result != nil, result.command != nil && result.command.LockId == command.LockId && (result == self.currentLock || result.locked > 0))
+//@   ensures C02.owner.oldest: implies(self.currentLock.command.LockId == command.LockId, result == self.currentLock)
+//@   modifies nothing
+
+//@ func (*LockManager).checkLockedCountEqual
+//@   requires lock != nil && command != nil && lock.command != nil
+//@   ensures C06.equal.counts: result == (command.Count == lock.command.Count && command.Rcount == lock.command.Rcount && command.TimeoutFlag&0x10 == lock.command.TimeoutFlag&0x10)
+//@   modifies nothing
+
+// "an update that would move the deadline by at most one unit of expiry granularity may be ignored"
+//@ func (*LockManager).CheckLockedEqual
+//@   requires self != nil && lock != nil && command != nil && lock.command != nil && clockSane(self.lockDb)
+//@   requires lock.expriedTime >= 0
+//@   ensures C06.equal.ignored: implies(result && command.ExpriedFlag&0x4400 == 0, abs(self.lockDb.currentTime + unitSeconds(command.Expried, command.ExpriedFlag) + 1 - lock.expriedTime) <= ite(command.ExpriedFlag&0x40 != 0, 60, 1))
+//@   ensures C06.equal.counts2: implies(result, command.Count == lock.command.Count && command.Rcount == lock.command.Rcount)
+//@   modifies nothing
+
+//@ func (*LockManager).UpdateLockedLock
+//@   requires self != nil && lock != nil && command != nil && self.lockDb != nil
+//@   ensures C03.update.command: lock.command == command && result == old(lock.command)
+//@   ensures C06.update.restart: implies(command.ExpriedFlag&0x4000 == 0 || command.Expried < 0xffff, lock.startTime == self.lockDb.currentTime && lock.expriedTime == i64(expriedDeadline(self.lockDb.currentTime, command)) && lock.timeoutTime == i64(timeoutDeadline(self.lockDb.currentTime, command)))
+//@   ensures C06.update.keep: implies(command.ExpriedFlag&0x4000 != 0 && command.Expried == 0xffff, lock.startTime == old(lock.startTime) && lock.expriedTime == old(lock.expriedTime))
+//@   ensures otherLocksSame(lock)
+//@   ensures lock.locked == old(lock.locked) && lock.refCount == old(lock.refCount) && lock.manager == old(lock.manager) && lock.protocol == old(lock.protocol) && lock.ackCount == old(lock.ackCount) && lock.longWaitIndex == old(lock.longWaitIndex) && lock.isAof == old(lock.isAof) && lock.timeouted == old(lock.timeouted) && lock.expried == old(lock.expried)
+//@   modifies Lock.command@lock, Lock.startTime@lock, Lock.timeoutTime@lock, Lock.expriedTime@lock, Lock.timeoutCheckedCount@lock, Lock.expriedCheckedCount@lock, Lock.aofTime@lock
+
+// ---- LockManager: waiters ----
+//@ func (*LockManager).GetOrNewLock
+//@   requires self != nil && command != nil && self.freeLocks != nil && self.lockDb != nil
+//@   ensures result != nil && result.manager == self && result.command == command
+//@   ensures C05.deadline: result.timeoutTime == i64(timeoutDeadline(self.lockDb.currentTime, command)) && result.startTime == self.lockDb.currentTime
+//@   ensures C05.fresh: result.timeoutCheckedCount == 1 && result.longWaitIndex == 0
+//@   ensures C06.unrenew.deadline: implies(command.TimeoutFlag&0x0100 != 0, result.expriedTime == i64(expriedDeadline(self.lockDb.currentTime, command)))
+//@   ensures self.refCount == u32(old(self.refCount) + 1)
+//@   ensures forallref(l, Lock, implies(l != result, lockSame(l)))
+//@   ensures implies(!fresh(result), result.locked == old(result.locked) && result.refCount == old(result.refCount) && result.ackCount == old(result.ackCount) && result.timeouted == old(result.timeouted))
+//@   assumes result.refCount == 0 && result.locked == 0
+//@   modifies Lock.manager, Lock.command, Lock.protocol, Lock.startTime, Lock.expriedTime, Lock.expriedCheckedCount, Lock.timeoutTime, Lock.timeoutCheckedCount, Lock.longWaitIndex, LockManager.refCount@self, LockQueue.*, E_LJPserver_Lock, E_Pserver_Lock, E_int32
+
+//@ func (*LockManager).AddWaitLock
+//@   requires self != nil && lock != nil && lock.command != nil
+//@   ensures C04.queued: self.waited && result == lock && self.waitLocks != nil
+//@   ensures lock.refCount == u8(old(lock.refCount) + 1) && lock.locked == old(lock.locked) && lock.manager == old(lock.manager) && lock.command == old(lock.command) && lock.timeouted == old(lock.timeouted) && lock.ackCount == old(lock.ackCount)
+//@   modifies LockManager.waitLocks@self, LockManager.waited@self, LockManager.refCount, LockManagerWaitQueue.*, LockManagerRingQueue.*, LockManagerPriorityRingQueue.*, LockManagerPriorityRingQueueNode.*, LockQueue.*, Lock.aofTime, Lock.command, Lock.data, Lock.isAof, Lock.manager, Lock.protocol, Lock.refCount, E_LJPserver_Lock, E_Pserver_Lock, E_Pserver_LockManagerPriorityRingQueueNode, E_int32
+
+//@ func (*LockManager).GetWaitLock
+//@   requires self != nil && self.freeLocks != nil
+//@   ensures C04.live,C05.notaftertimeout: implies(result != nil, !result.timeouted && result.ackCount == 0xff)
+//@   assumes refDiscipline() && forallref(l, Lock, implies(old(l.refCount) == 0, lockSame(l)))
+//@   modifies LockManager.refCount, LockManagerWaitQueue.*, LockManagerRingQueue.*, LockManagerPriorityRingQueue.*, LockManagerPriorityRingQueueNode.*, LockQueue.*, Lock.aofTime, Lock.command, Lock.data, Lock.isAof, Lock.manager, Lock.protocol, Lock.refCount, E_LJPserver_Lock, E_Pserver_Lock, E_Pserver_LockManagerPriorityRingQueueNode, E_int32
+
+// ---- key table (lock-free; DESIGN section 3: linearizability is assumed, not proved) ----
+//@ func (*LockDB).GetOrNewLockManager
+//@   trusted lock-free key table: at most one live manager per key (assumed); only the result's shape is used
+//@   ensures result != nil && result.glock != nil && result.state != nil && result.lockDb == self && result.freeLocks != nil
+//@   modifies protocol.LockDBState.KeyCount, protocol.LockDBState.SlowKeyCount, LockDB.freeLockManagerHead, LockDB.freeLockManagerTail, LockDB.managerGlockIndex, LockManager.fastKeyValue, LockManager.lockKey, LockManager.refCount, E_Pserver_LockManager, E_server_FastKeyValue, MH_mapLL16JbyteJPserver_LockManager, MV_mapLL16JbyteJPserver_LockManager
+
+//@ func (*LockDB).GetLockManager
+//@   trusted lock-free key table (see GetOrNewLockManager)
+//@   ensures implies(result != nil, result.glock != nil && result.state != nil && result.lockDb == self && result.freeLocks != nil)
+//@   modifies nothing
+
+//@ func (*LockDB).RemoveLockManager
+//@   requires self != nil && lockManager != nil && lockManager.state != nil
+//@   ensures C17.reclaim.value: implies(lockManager.state.KeyCount != old(lockManager.state.KeyCount), lockManager.currentData == nil && lockManager.fastKeyValue == nil)
+//@   ensures lockManager.locked == old(lockManager.locked) && lockManager.waited == old(lockManager.waited)
+//@   ensures C17.reclaim.onlyidle: implies(old(lockManager.refCount) != 0, lockManager.currentLock == old(lockManager.currentLock) && lockManager.currentData == old(lockManager.currentData) && lockManager.lockKey == old(lockManager.lockKey) && lockManager.freeLocks == old(lockManager.freeLocks) && lockManager.refCount == old(lockManager.refCount))
+//@   modifies protocol.LockDBState.KeyCount, FastKeyValue.count, FastKeyValue.lock, FastKeyValue.manager, LockDB.freeLockManagerHead, LockManagerLockQueue.*, LockManagerWaitQueue.*, LockManager.currentData@lockManager, LockManager.currentLock@lockManager, LockManager.fastKeyValue@lockManager, LockManager.freeLocks@lockManager, LockManager.lockKey@lockManager, LockManager.locks@lockManager, LockManager.refCount@lockManager, LockManager.waitLocks@lockManager, E_Pserver_LockManager, E_Pserver_Lock, MH_mapLL16JbyteJPserver_LockManager, MH_mapLL16JbyteJPserver_Lock
+
+//@ func (*LockManagerLockQueue).Reset
+//@   trusted queue internals (holder queue), subject of C20
+//@   modifies LockManagerLockQueue.*, E_Pserver_Lock, MH_mapLL16JbyteJPserver_Lock
+//@ func (*LockManagerWaitQueue).Reset
+//@   trusted queue internals (wait queue), subject of C20
+//@   modifies LockManagerWaitQueue.*, E_Pserver_Lock
+
+//@ func (*LockDB).addWaitRemoveLockManager
+//@   modifies LockManagerQueue.*, LockManager.refCount, E_LJPserver_LockManager, E_Pserver_LockManager, E_int32
+
+//@ func (*LockDB).PushExecutorLockCommand
+//@   ensures C10.executor.notleader: implies(old(self.status) != STATE_LEADER, sameheap(LockManager.refCount, LockManager.lockKey))
+//@   modifies protocol.LockDBState.KeyCount, protocol.LockDBState.SlowKeyCount, LockDB.freeLockManagerHead, LockDB.freeLockManagerTail, LockDB.managerGlockIndex, LockManager.fastKeyValue, LockManager.lockKey, LockManager.refCount, PriorityMutex.*, LockDBExecutor.*, LockDBExecutorTask.*, E_Pserver_LockDBExecutor, E_Pserver_LockDBExecutorTask, E_Pserver_LockManager, E_server_FastKeyValue, MH_mapLL16JbyteJPserver_LockManager, MV_mapLL16JbyteJPserver_LockManager
+
+//@ func (*SubscribeChannel).Push
+//@   modifies PriorityMutex.*, PublishLock.*, SubscribeChannel.*, SubscribeManager.freeLockQueueIndex, SubscribeManager.publishId, SubscribePublishLockQueue.next, SubscribePublishLockQueue.windex, E_Pserver_PublishLock
+
+// ---- persistence hand-off ----
+//@ func (*LockManager).PushLockAof
+//@   requires self != nil && lock != nil && lock.command != nil && self.lockDb != nil
+//@   ensures C10.aof.notleader,C07.push.notleader: implies(old(self.lockDb.status) != STATE_LEADER, isnil(result) && lock.isAof == old(lock.isAof))
+//@   ensures C07.push.marks: implies(old(self.lockDb.status) == STATE_LEADER && isnil(result), lock.isAof)
+//@   ensures C07.push.failed: implies(!isnil(result), lock.isAof == old(lock.isAof))
+//@   modifies AofChannel.*, AofLockQueue.next, AofLockQueue.windex, AofLock.*, Aof.freeLockQueueIndex, LockData.aofData, LockManagerData.isAof, Lock.data@lock, Lock.isAof@lock, PriorityMutex.*, E_Pserver_AofLock
+
+//@ func (*LockManager).PushUnLockAof
+//@   requires self != nil && lock != nil && self.lockDb != nil
+//@   ensures C10.aofunlock.notleader: implies(old(self.lockDb.status) != STATE_LEADER, isnil(result) && lock.isAof == old(lock.isAof))
+//@   ensures C07.pushunlock.marks: implies(old(self.lockDb.status) == STATE_LEADER && isnil(result), lock.isAof == isAof)
+//@   modifies AofChannel.*, AofLockQueue.next, AofLockQueue.windex, AofLock.*, Aof.freeLockQueueIndex, LockData.aofData, LockManagerData.isAof, Lock.data@lock, Lock.isAof@lock, PriorityMutex.*, E_Pserver_AofLock
+
+// ---- value operations (C15); here only their frames ----
+//@ func (*LockManager).ProcessLockData
+//@   assumes command.Rcount == old(command.Rcount) && command.Flag == old(command.Flag) && command.TimeoutFlag == old(command.TimeoutFlag) && command.ExpriedFlag == old(command.ExpriedFlag) && command.Expried == old(command.Expried) && command.Timeout == old(command.Timeout) && command.Count == old(command.Count) && command.LockId == old(command.LockId) && command.LockKey == old(command.LockKey)
+//@   modifies protocol.LockCommand.*, protocol.LockDBState.KeyCount, protocol.LockDBState.SlowKeyCount, LockDB.freeLockManagerHead, LockDB.freeLockManagerTail, LockDB.managerGlockIndex, LockData.*, LockManagerData.isAof, LockManager.currentData, LockManager.fastKeyValue, LockManager.lockKey, LockManager.refCount, Lock.data, PriorityMutex.*, LockDBExecutor.*, LockDBExecutorTask.*, E_Pserver_LockDBExecutor, E_Pserver_LockDBExecutorTask, E_Pserver_LockManager, E_server_FastKeyValue, MH_mapLL16JbyteJPserver_LockManager, MV_mapLL16JbyteJPserver_LockManager
+//@ func (*LockManager).ProcessExecuteLockCommand
+//@   assumes forallref(c, protocol.LockCommand, implies(!fresh(c), c.Rcount == old(c.Rcount) && c.Flag == old(c.Flag) && c.TimeoutFlag == old(c.TimeoutFlag) && c.LockId == old(c.LockId)))
+//@   modifies protocol.LockCommand.*, protocol.LockDBState.KeyCount, protocol.LockDBState.SlowKeyCount, LockDB.freeLockManagerHead, LockDB.freeLockManagerTail, LockDB.managerGlockIndex, LockData.commandDatas, LockManager.fastKeyValue, LockManager.lockKey, LockManager.refCount, Lock.data, PriorityMutex.*, LockDBExecutor.*, LockDBExecutorTask.*, E_Pserver_LockDBExecutor, E_Pserver_LockDBExecutorTask, E_Pserver_LockManager, E_server_FastKeyValue, MH_mapLL16JbyteJPserver_LockManager, MV_mapLL16JbyteJPserver_LockManager
+//@ func (*LockManager).ProcessRecoverLockData
+//@   modifies LockData.*, LockManagerData.isAof, LockManager.currentData, Lock.data
+//@ func (*LockManager).ProcessAckLockData
+//@   modifies protocol.LockCommand.*, protocol.LockDBState.KeyCount, protocol.LockDBState.SlowKeyCount, LockDB.freeLockManagerHead, LockDB.freeLockManagerTail, LockDB.managerGlockIndex, LockData.*, LockManager.fastKeyValue, LockManager.lockKey, LockManager.refCount, Lock.data, PriorityMutex.*, LockDBExecutor.*, LockDBExecutorTask.*, E_Pserver_LockDBExecutor, E_Pserver_LockDBExecutorTask, E_Pserver_LockManager, E_server_FastKeyValue, MH_mapLL16JbyteJPserver_LockManager, MV_mapLL16JbyteJPserver_LockManager
+//@ func (*Lock).ClearLockCommandDatas
+//@   modifies LockData.commandDatas
+//@ func (*LockManager).GetLockData
+//@   modifies nothing
+
+// ---- timer wheels ----
+//@ func (*LockDB).AddTimeOut
+//@   requires self != nil && lock != nil && lock.manager != nil
+//@   ensures C05.armed: !lock.timeouted
+//@   ensures otherLocksSame(lock) && lock.locked == old(lock.locked) && lock.refCount == old(lock.refCount) && lock.manager == old(lock.manager) && lock.command == old(lock.command) && lock.ackCount == old(lock.ackCount) && lock.expried == old(lock.expried) && lock.isAof == old(lock.isAof) && lock.protocol == old(lock.protocol)
+//@   modifies FastKeyValue.lock, FastKeyValue.manager, LockManager.fastKeyValue, LockQueue.*, Lock.longWaitIndex@lock, Lock.timeoutTime@lock, Lock.timeouted@lock, LongWaitLockFreeQueue.freeIndex, LongWaitLockQueue.*, E_LJPserver_Lock, E_Pserver_Lock, E_Pserver_LongWaitLockQueue, E_int32, MH_mapLL16JbyteJPserver_LockManager, MH_mapLint64JPserver_LongWaitLockQueue, MV_mapLL16JbyteJPserver_LockManager, MV_mapLint64JPserver_LongWaitLockQueue
+
+//@ func (*LockDB).AddMillisecondTimeOut
+//@   requires self != nil && lock != nil && lock.manager != nil && lock.command != nil
+//@   ensures C05.armed.ms: !lock.timeouted
+//@   ensures otherLocksSame(lock) && lock.locked == old(lock.locked) && lock.refCount == old(lock.refCount) && lock.manager == old(lock.manager) && lock.command == old(lock.command) && lock.ackCount == old(lock.ackCount) && lock.expried == old(lock.expried) && lock.isAof == old(lock.isAof) && lock.protocol == old(lock.protocol)
+//@   modifies LockQueue.*, Lock.longWaitIndex@lock, Lock.timeouted@lock, MillisecondWaitLockFreeQueue.freeIndex, E_LJPserver_Lock, E_Pserver_Lock, E_Pserver_MillisecondWaitLockQueue, E_int32
+
+//@ func (*LockDB).AddExpried
+//@   requires self != nil && lock != nil && lock.manager != nil && lock.command != nil && lock.manager.lockDb != nil
+//@   ensures C06.armed: !lock.expried
+//@   ensures C06.armed.notearlier: lock.expriedTime >= old(lock.expriedTime)
+//@   loop#1 invariant otherLocksSame(lock) && !lock.expried && lock.locked == old(lock.locked) && lock.refCount == old(lock.refCount) && lock.manager == old(lock.manager) && lock.command == old(lock.command) && lock.ackCount == old(lock.ackCount) && lock.timeouted == old(lock.timeouted) && lock.protocol == old(lock.protocol) && lock.expriedTime >= old(lock.expriedTime)
+//@   ensures otherLocksSame(lock) && lock.locked == old(lock.locked) && lock.refCount == old(lock.refCount) && lock.manager == old(lock.manager) && lock.command == old(lock.command) && lock.ackCount == old(lock.ackCount) && lock.timeouted == old(lock.timeouted) && lock.protocol == old(lock.protocol)
+//@   modifies AofChannel.*, AofLockQueue.next, AofLockQueue.windex, AofLock.*, Aof.freeLockQueueIndex, FastKeyValue.lock, FastKeyValue.manager, LockManager.fastKeyValue, LockData.aofData, LockManagerData.isAof, LockQueue.*, Lock.data@lock, Lock.expried@lock, Lock.expriedTime@lock, Lock.isAof@lock, Lock.longWaitIndex@lock, LongWaitLockFreeQueue.freeIndex, LongWaitLockQueue.*, PriorityMutex.*, E_LJPserver_Lock, E_Pserver_AofLock, E_Pserver_Lock, E_Pserver_LongWaitLockQueue, E_int32, MH_mapLL16JbyteJPserver_LockManager, MH_mapLint64JPserver_LongWaitLockQueue, MV_mapLL16JbyteJPserver_LockManager, MV_mapLint64JPserver_LongWaitLockQueue
+
+//@ func (*LockDB).AddMillisecondExpried
+//@   requires self != nil && lock != nil && lock.manager != nil && lock.command != nil && lock.manager.lockDb != nil
+//@   ensures C06.armed.ms: !lock.expried
+//@   ensures otherLocksSame(lock) && lock.locked == old(lock.locked) && lock.refCount == old(lock.refCount) && lock.manager == old(lock.manager) && lock.command == old(lock.command) && lock.ackCount == old(lock.ackCount) && lock.timeouted == old(lock.timeouted) && lock.protocol == old(lock.protocol)
+//@   modifies AofChannel.*, AofLockQueue.next, AofLockQueue.windex, AofLock.*, Aof.freeLockQueueIndex, LockData.aofData, LockManagerData.isAof, LockQueue.*, Lock.data@lock, Lock.expried@lock, Lock.isAof@lock, Lock.longWaitIndex@lock, MillisecondWaitLockFreeQueue.freeIndex, PriorityMutex.*, E_LJPserver_Lock, E_Pserver_AofLock, E_Pserver_Lock, E_Pserver_MillisecondWaitLockQueue, E_int32
+
+//@ func (*LockDB).RemoveLongExpried
+//@   requires self != nil && lock != nil && lock.manager != nil
+//@   ensures forallref(l, Lock, implies(l != lock, l.locked == old(l.locked) && l.refCount == old(l.refCount) && l.command == old(l.command) && l.manager == old(l.manager)))
+//@   ensures lock.locked == old(lock.locked) && lock.command == old(lock.command) && lock.manager == old(lock.manager)
+//@   modifies LockQueue.*, Lock.longWaitIndex, Lock.refCount@lock, LongWaitLockFreeQueue.freeIndex, LongWaitLockQueue.*, E_LJPserver_Lock, E_Pserver_Lock, E_Pserver_LongWaitLockQueue, E_int32, MH_mapLint64JPserver_LongWaitLockQueue
+
+//@ func (*LockDB).RemoveLongTimeOut
+//@   requires self != nil && lock != nil && lock.manager != nil
+//@   ensures lock.locked == old(lock.locked) && lock.command == old(lock.command) && lock.manager == old(lock.manager)
+//@   modifies LockQueue.*, Lock.longWaitIndex, Lock.refCount@lock, LongWaitLockFreeQueue.freeIndex, LongWaitLockQueue.*, E_LJPserver_Lock, E_Pserver_Lock, E_Pserver_LongWaitLockQueue, E_int32, MH_mapLint64JPserver_LongWaitLockQueue
+
+//@ func (*PriorityMutex).Lock
+//@   trusted mutual exclusion is assumed (DESIGN 2.6)
+//@   modifies PriorityMutex.*
+//@ func (*PriorityMutex).LowPriorityLock
+//@   trusted mutual exclusion is assumed (DESIGN 2.6)
+//@   modifies PriorityMutex.*
+//@ func (*PriorityMutex).HighPriorityLock
+//@   trusted mutual exclusion is assumed (DESIGN 2.6)
+//@   modifies PriorityMutex.*
+//@ func (*PriorityMutex).Unlock
+//@   trusted mutual exclusion is assumed (DESIGN 2.6)
+//@   modifies PriorityMutex.*
+//@ func (*PriorityMutex).LowPriorityUnlock
+//@   trusted mutual exclusion is assumed (DESIGN 2.6)
+//@   modifies PriorityMutex.*
+//@ func (*PriorityMutex).HighPriorityUnlock
+//@   trusted mutual exclusion is assumed (DESIGN 2.6)
+//@   modifies PriorityMutex.*
+
+// =====================================================================================================
+// Critical sections of the lock engine. State protected by the shard mutex is forgotten where the section
+// starts (another goroutine may have run whole sections before) and the section invariant is assumed there
+// (monitor rule, DESIGN 2.6); it is asserted again at every release of the mutex.
+// =====================================================================================================
+//@ spec func heldWellFormed() = forallref(l, Lock, implies(l.locked > 0, l.manager != nil && l.command != nil && l.manager.lockDb != nil && l.expriedTime >= 0))
+//@ spec func sectionInv(db, m) = clockSane(db) && m != nil && m.lockDb == db && m.glock != nil && m.state != nil && implies(m.locked > 0, m.currentLock != nil && m.currentLock.locked > 0) && implies(m.currentLock != nil, m.currentLock.command != nil && m.currentLock.manager == m) && heldWellFormed()
+// assumed when a section starts and NOT re-established by the proofs (C17 'refs' accounting): a manager without references holds nothing
+//@ spec func sectionAssumeOnly(m) = implies(m.refCount == 0, m.locked == 0 && m.currentLock == nil && !m.waited)
+//@ spec func engineUntouched(m) = m.locked == atsection(m.locked) && m.waited == atsection(m.waited) && forallref(l, Lock, l.locked == atsection(l.locked) && l.timeouted == atsection(l.timeouted) && l.expried == atsection(l.expried) && l.ackCount == atsection(l.ackCount))
+
+//@ func (*LockDB).doCheckLockWaitPriority
+//@   requires lockManager != nil && lock != nil && lock.command != nil
+//@   modifies nothing
+
+//@ func (*LockDB).checkLessLockVersion
+//@   requires self != nil && lockManager != nil && command != nil && lockManager.freeLocks != nil && implies(lockManager.currentLock != nil, lockManager.currentLock.command != nil)
+//@   ensures refDiscipline() && forallref(l, Lock, implies(old(l.refCount) == 0, lockSame(l)))
+//@   modifies LockManager.refCount, LockManagerWaitQueue.*, LockManagerRingQueue.*, LockManagerPriorityRingQueue.*, LockManagerPriorityRingQueueNode.*, LockQueue.*, Lock.aofTime, Lock.command, Lock.data, Lock.isAof, Lock.manager, Lock.protocol, Lock.refCount, E_LJPserver_Lock, E_Pserver_Lock, E_Pserver_LockManagerPriorityRingQueueNode, E_int32
+
+//@ func (*LockDB).Lock
+//@   requires self != nil && command != nil && !isnil(serverProtocol)
+//@   at call GetOrNewLockManager after havoc Lock.*, LockManager.locked, LockManager.currentLock, LockManager.currentData, LockManager.locks, LockManager.waitLocks, LockManager.waited, LockManager.refCount, LockManager.lockKey, LockManager.fastKeyValue, LockManagerLockQueue.*, LockManagerWaitQueue.*, LockQueue.*, protocol.LockDBState.*, LockDB.status, LockDB.currentTime
+//@   at call GetOrNewLockManager after assume sectionInv(self, callresult) && callresult.freeLocks != nil && sectionAssumeOnly(callresult)
+//@   at call PriorityMutex.Unlock assert C01.lock.monitor: sectionInv(self, lockManager)
+//@   at call AddLock assert C01.lock.admit: admissible(lockManager, lock) || unlimitedClass(lockManager, lock)
+//@   at call AddLock assert C01.lock.key: lockManager.lockKey == command.LockKey && lock.manager == lockManager && lock.command == command
+//@   at call AddWaitLock assert C01.lock.queuekey: lockManager.lockKey == command.LockKey && lock.manager == lockManager && lock.command == command
+//@   at call ProcessLockResultCommand assert C10.lock.refuse: implies(self.status != STATE_LEADER && old(command.Flag)&0x04 == 0, arg2 == protocol.RESULT_STATE_ERROR || (old(command.Flag)&0x08 != 0 && old(command.Timeout) == 0 && arg2 == protocol.RESULT_TIMEOUT && calls(GetOrNewLockManager) == 0))
+//@   at call ProcessLockResultCommand assert C10.lock.nochange: implies(self.status != STATE_LEADER && old(command.Flag)&0x04 == 0 && calls(GetOrNewLockManager) == 1, engineUntouched(lockManager))
+//@   at call ProcessLockResultCommand assert C17.lock.lcount: implies(calls(GetOrNewLockManager) == 1, arg3 == u16(lockManager.locked))
+//@   ensures C03.lock.atmostone: calls(ProcessLockResultCommand) <= 1 && calls(FreeLockCommand) <= 1
+//@   ensures C03.lock.once: calls(ProcessLockResultCommand) == 1 || calls(AddWaitLock) == 1 || calls(DoAckLock) == 1 || calls(LockDB.Lock) == 1 || (calls(UpdateLockedLock) == 1 && calls(PushLockAof) >= 1) || (calls(AddLock) == 1 && calls(AddTimeOut) + calls(AddMillisecondTimeOut) == 1 && calls(PushLockAof) == 1)
+//@   ensures C03.lock.retained: implies(calls(AddWaitLock) + calls(DoAckLock) + calls(LockDB.Lock) >= 1, calls(ProcessLockResultCommand) == 0 && calls(FreeLockCommand) == 0)
+//@   ensures C17.lock.counter: implies(calls(GetOrNewLockManager) == 1 && calls(wakeUpWaitLocks) == 0 && calls(DoAckLock) == 0 && calls(LockDB.Lock) == 0, u32(lockManager.state.LockedCount - atsection(lockManager.state.LockedCount)) == u32(lockManager.locked - atsection(lockManager.locked)))
+//@   ensures C17.lock.waitcounter: implies(calls(GetOrNewLockManager) == 1 && calls(wakeUpWaitLocks) == 0 && calls(DoAckLock) == 0 && calls(LockDB.Lock) == 0, u32(lockManager.state.WaitCount - atsection(lockManager.state.WaitCount)) == calls(AddWaitLock))
+//@   modifies all
+
+//@ func (*LockDB).wakeUpWaitLocks
+//@   requires self != nil && lockManager != nil
+//@   modifies all
+
+//@ func (*LockDB).DoAckLock
+//@   requires self != nil && lock != nil
+//@   modifies all
+
+
+//@ func (*LockDB).cancelWaitLock
+//@   requires self != nil && lockManager != nil && command != nil
+//@   modifies all
+// unlockTreeLock and addUnlockLockCommandToWaitLock (flags outside the core command subset) carry no contract: they are inlined
+
+// the request's own hold: the LockId matches, or (unlock-first) it is the oldest holder
+//@ spec func ownsHold(m, cur, cmdLockId, cmdFlag) = cur != nil && atsection(cur.locked) > 0 && ((atsection(cur.command.LockId) == cmdLockId && atsection(cur.ackCount) == 0xff) || (cmdFlag&0x01 != 0 && cur == atsection(m.currentLock)))
+
+//@ func (*LockDB).UnLock
+//@   requires self != nil && command != nil && !isnil(serverProtocol)
+//@   at call GetLockManager after havoc Lock.*, LockManager.locked, LockManager.currentLock, LockManager.currentData, LockManager.locks, LockManager.waitLocks, LockManager.waited, LockManager.refCount, LockManager.lockKey, LockManager.fastKeyValue, LockManagerLockQueue.*, LockManagerWaitQueue.*, LockQueue.*, protocol.LockDBState.*, LockDB.status, LockDB.currentTime
+//@   at call GetLockManager after assume implies(callresult != nil, sectionInv(self, callresult) && callresult.freeLocks != nil && sectionAssumeOnly(callresult))
+//@   at call PriorityMutex.Unlock assert C02.unlock.monitor: sectionInv(self, lockManager)
+//@   at call ProcessLockResultCommand assert C10.unlock.refuse: implies(self.status != STATE_LEADER && old(command.Flag)&0x04 == 0 && lockManager != nil, arg2 == protocol.RESULT_STATE_ERROR)
+//@   at call ProcessLockResultCommand assert C10.unlock.nochange: implies(self.status != STATE_LEADER && old(command.Flag)&0x04 == 0 && lockManager != nil, engineUntouched(lockManager))
+//@   at call ProcessLockResultCommand assert C02.unlock.refused: implies((arg2 == protocol.RESULT_UNLOCK_ERROR || arg2 == protocol.RESULT_UNOWN_ERROR || arg2 == protocol.RESULT_LOCK_ACK_WAITING) && lockManager != nil, engineUntouched(lockManager))
+//@   at call ProcessLockResultCommand assert C02.unlock.owner: implies(arg2 == protocol.RESULT_SUCCED, ownsHold(lockManager, currentLock, old(command.LockId), old(command.Flag)))
+//@   at call ProcessLockResultCommand assert C02.unlock.depth: implies(arg2 == protocol.RESULT_SUCCED, lockManager.locked == atsection(lockManager.locked) - (atsection(currentLock.locked) - currentLock.locked) && currentLock.locked == ite(command.Rcount > 0 && command.TimeoutFlag&0x10 == 0, atsection(currentLock.locked) - 1, 0))
+//@   at call ProcessLockResultCommand assert C02.unlock.ends: implies(arg2 == protocol.RESULT_SUCCED, (currentLock.locked == 0) == (calls(RemoveLock) == 1))
+//@   at call ProcessLockResultCommand assert C17.unlock.lcount: implies(lockManager != nil, arg3 == u16(lockManager.locked)) && implies(arg2 == protocol.RESULT_SUCCED, arg4 == currentLock.locked)
+//@   at call ProcessLockData assert C15.unlock.capture: calls(GetLockData) >= 1
+//@   at call wakeUpWaitLocks assert C17.unlock.counter: u32(lockManager.state.LockedCount - atsection(lockManager.state.LockedCount)) == u32(lockManager.locked - atsection(lockManager.locked))
+//@   ensures C03.unlock.atmostone: calls(ProcessLockResultCommand) <= 1
+//@   ensures C03.unlock.once: calls(ProcessLockResultCommand) == 1 || calls(cancelWaitLock) == 1 || calls(LockDB.UnLock) == 1 || calls(unlockTreeLock) == 1
+//@   ensures C03.unlock.handoff: implies(calls(cancelWaitLock) + calls(LockDB.UnLock) >= 1, calls(ProcessLockResultCommand) == 0)
+//@   ensures C04.unlock.wake: implies(calls(wakeUpWaitLocks) == 0 && calls(cancelWaitLock) == 0 && calls(LockDB.UnLock) == 0 && lockManager != nil, lockManager.locked == atsection(lockManager.locked))
+//@   modifies all
